@@ -9,7 +9,8 @@ QUICK_CFGS = {"C06": ["MCConn_q_close.cfg", "MCConn_q_eof.cfg", "MCConn_q_werr.c
               "C07": ["MCConn_q_cancel.cfg", "MCConn_q_ping.cfg", "MCConn_q_rc_handler_eof.cfg"]}
 THOROUGH_CFGS = ["MCConn_q_close.cfg", "MCConn_q_eof.cfg", "MCConn_q_werr.cfg", "MCConn_q_coincide.cfg", "MCConn_q_cancel.cfg", "MCConn_q_ping.cfg",
                  "MCConn_q_rc_handler_eof.cfg", "MCConn_q_rc_other_eof.cfg", "MCConn_t_close.cfg", "MCConn_t_eof.cfg", "MCConn_t_cancel.cfg", "MCConn_t_werr.cfg", "MCConn_t_teardown_full.cfg",
-                 "MCConn_t_ping.cfg", "MCConn_t_rc_handler_close.cfg", "MCConn_t_rc_handler_cancel.cfg", "MCConn_t_rc_handler.cfg", "MCConn_t_rc_other.cfg", "MCConn_t_rc3.cfg"]
+                 "MCConn_t_ping.cfg", "MCConn_t_rc_handler_close.cfg", "MCConn_t_rc_handler_cancel.cfg", "MCConn_t_rc_handler.cfg", "MCConn_t_rc_other.cfg", "MCConn_t_rc3.cfg",
+                 "MCConn_q_rc_eager.cfg", "MCConn_t_rc_eager.cfg"]
 OUT_QUICK = ["MCConn_q_out.cfg"]
 OUT_THOROUGH = ["MCConn_t_out.cfg", "MCConn_t_out_stall.cfg"]
 DEFECTS = {"MCConn_defect_drainonce.cfg": "D5 drain-once Close", "MCConn_defect_staleclose.cfg": "D6 stale Close of an old generation",
@@ -28,10 +29,16 @@ def model_check(ctx, cfgs, timeout=None):
             raise common.Inconclusive("TLC failed on %s (rc=%s):\n%s" % (cfg, r.rc, "\n".join(r.out.splitlines()[-30:])))
 
 
+DEFECTS_THOROUGH = {"MCConn_defect_earlyunlock.cfg": "close releases the lifecycle lock before it waits (seeded change C07e) while another goroutine reconnects eagerly"}
+
+
 def sensitivity(ctx):
     res = {}
-    rs = ctx.tlc_many("Conn.tla", list(DEFECTS), what="defect variant: TLC must find the violation", timeout=600, count=False)
-    for cfg, what in DEFECTS.items():
+    defects = dict(DEFECTS)
+    if not ctx.quick():
+        defects.update(DEFECTS_THOROUGH)
+    rs = ctx.tlc_many("Conn.tla", list(defects), what="defect variant: TLC must find the violation", timeout=900, count=False)
+    for cfg, what in defects.items():
         r = rs[cfg]
         v = r.violated()
         if not v:
@@ -45,27 +52,63 @@ def conformance(ctx, traces, results):
     validated against ConnTrace.tla.  AtMostOneDisc / OwnClose violated on real events are property violations (the
     DISCONNECTED dispatch and the socket a closer was started for are observable); any other rejection is DRIFT."""
     import re, json
-    accepted = events = 0
+    from concurrent.futures import ThreadPoolExecutor
+    # one scenario = the events from one "reset" to the next; scenarios are dealt round-robin into shards that are
+    # validated side by side, each within a budget: how long TLC needs depends on the schedule that was recorded
+    # (a receive is logged after it happened, the search has to place the silent steps)
+    scen = []
     for tr in traces:
         if not os.path.exists(tr) or os.path.getsize(tr) == 0:
             continue
-        n = sum(1 for _ in open(tr))
+        cur = None
+        for l in open(tr):
+            if '"reset"' in l:
+                cur = []
+                scen.append(cur)
+            if cur is not None:
+                cur.append(l)
+    if not scen:
+        return 0, 0
+    nshards = min(8, len(scen))
+    d = ctx.subdir("conn-shards")
+    files = []
+    for k in range(nshards):
+        pth = os.path.join(d, "shard%d.ndjson" % k)
+        with open(pth, "w") as f:
+            for sc in scen[k::nshards]:
+                f.writelines(sc)
+        files.append((pth, len(scen[k::nshards]), sum(len(sc) for sc in scen[k::nshards])))
+    budget = 90 if ctx.quick() else 900
+
+    def one(item):
+        pth, nsc, nev = item
         try:
-            ok, msg, r = ctx.validate_trace("ConnTrace.tla", "ConnTrace.cfg", tr, what="hook events of the lifecycle scenarios against ConnTrace.tla", timeout=240, dfs=True)
+            ok, msg, r = ctx.validate_trace("ConnTrace.tla", "ConnTrace.cfg", pth, what="hook events of the lifecycle scenarios against ConnTrace.tla", timeout=budget, dfs=True)
+            return pth, nsc, nev, ok, msg, r, None
         except common.Inconclusive as e:
-            ctx.drift.append("the hook trace could not be matched against ConnTrace.tla within the budget (%s)" % str(e)[:200])
+            return pth, nsc, nev, None, "", None, str(e)
+    with ThreadPoolExecutor(max_workers=4) as ex:
+        outcomes = list(ex.map(one, files))
+    accepted = events = unmatched = 0
+    for pth, nsc, nev, ok, msg, r, err in outcomes:
+        if err is not None:
+            if "timed out" in err:
+                unmatched += nsc      # not decided within the budget: neither accepted nor rejected
+            else:
+                ctx.drift.append("the hook trace could not be validated against ConnTrace.tla (%s)" % err[:200])
             continue
-        events += n
+        events += nev
         if ok:
-            accepted += sum(1 for l in open(tr) if '"reset"' in l)
+            accepted += nsc
             continue
         inv = r.violated()
         if any("TraceInv" in v for v in inv):
-            rp = ctx.save_replay(tr, "conn-trace-%s.ndjson" % ctx.pid)
+            rp = ctx.save_replay(pth, "conn-trace-%s.ndjson" % ctx.pid)
             ctx.violation("conntrace/invariant", "on recorded hook events a connection generation got a second DISCONNECTED or was closed by a goroutine of another generation "
                           "(AtMostOneDisc / OwnClose of Conn.tla violated): " + msg[:300], rp)
         else:
             ctx.drift.append("the code no longer follows ConnTrace.tla (the listed properties held on everything observed): " + msg[:300])
+    ctx.conn_unmatched = unmatched
     return accepted, events
 
 
@@ -163,7 +206,8 @@ def run_lifecycle(ctx, props, what):
                    "configuration x reconnect origin); distinct = distinct scenario classes (backlog class, who sends, handler state, causes, flood, reconnect, refused-connect)",
            "scenario_classes": len(classes), "queue_capacity": qcap, "scenarios_skipped": len(skipped),
            "defect_variants_detected_by_tlc": sens, "what": what,
-           "hook_events_recorded": nev, "scenarios_accepted_by_ConnTrace": acc}
+           "hook_events_recorded": nev, "scenarios_accepted_by_ConnTrace": acc,
+           "scenarios_not_decided_by_ConnTrace_within_budget": getattr(ctx, "conn_unmatched", 0)}
     return common.finish(ctx, "model_checking", cov)
 
 
